@@ -8,7 +8,7 @@ TheComp == IOEnv.COMP
 TheSet == IF TheComp = "kb1" THEN 1 ELSE 2
 RecLayoutFn(l, k, m, h) == 983040 + l * 128 + KeyIndex(k)
 RecIds == {0, 1}
-VARIABLES fs, ss, es, kout, l, sid
+VARIABLES fs, ss, es, kout, l, sid, sync
 SpSName(c) == c
 SpEMods(e) == e[1]
 SpEMode(e) == e[2]
